@@ -30,6 +30,7 @@ class PathCounter:
         self.norm = Normalizer(fn, inline=False)
         self.exits: List[Exit] = []
         self.stack: List[Tuple[ast.AST, bool]] = []
+        self.loop_depth = 0  # break / continue outside any loop of `fn` (fn is a loop body) are exits too
 
     def run(self) -> List[Exit]:
         out = self._block(self.fn.body, [(0, 0)])
@@ -101,8 +102,14 @@ class PathCounter:
                 self.exits.append(Exit("raise", s, lo, hi, list(self.stack)))
             return [], [], []
         if isinstance(s, ast.Break):
+            if self.loop_depth == 0:
+                for lo, hi in states:
+                    self.exits.append(Exit("break", s, lo, hi, list(self.stack)))
             return [], states, []
         if isinstance(s, ast.Continue):
+            if self.loop_depth == 0:
+                for lo, hi in states:
+                    self.exits.append(Exit("continue", s, lo, hi, list(self.stack)))
             return [], [], states
         if isinstance(s, ast.If):
             r = self._eval(s.test)
@@ -119,7 +126,11 @@ class PathCounter:
             return out, brk, cont
         if isinstance(s, (ast.For, ast.While)):
             r = self._eval(s.test) if isinstance(s, ast.While) else None
-            o, b, c = self._block(s.body, states) if r is not False else ([], [], [])
+            self.loop_depth += 1
+            try:
+                o, b, c = self._block(s.body, states) if r is not False else ([], [], [])
+            finally:
+                self.loop_depth -= 1
             once = self._merge(o, c)
             # zero iterations keep `states`; more iterations: if the body can add events the
             # upper bound is unbounded, the lower bound is that of zero iterations
